@@ -237,6 +237,39 @@ class Analysis:
                 # every SPEC field of a built struct is fed by an input or a constant the statement allows
         return viol, n
 
+    # ---- ranges (used by C04) --------------------------------------------------------------------------------------------------
+    def range_endpoints(self):
+        """every endpoint of every Range a grammar action builds must be a position the grammar captured (`@L` / `@R`), never
+        a value read out of a child node, a literal or the result of arithmetic.  -> {role: [witness]}, ranges examined"""
+        viol, n = {}, 0
+
+        def visit(t, lhs, prod, field):
+            nonlocal n
+            if not isinstance(t, tuple) or not t:
+                return
+            if t[0] == 'range':
+                n += 1
+                for which, e in (('start', t[1]), ('end', t[2])):
+                    if not (isinstance(e, tuple) and e[0] == 'pos'):
+                        viol.setdefault('range-endpoint-not-captured:%s.%s' % (lhs, field or '?'), []).append({'production': prod, 'endpoint': which, 'value': content.show(e)[:120]})
+                return
+            if t[0] == 'struct':
+                for k, v in t[2]:
+                    visit(v, lhs, prod, k)
+                return
+            for x in t[1:]:
+                if isinstance(x, tuple):
+                    if x and isinstance(x[0], str):
+                        visit(x, lhs, prod, field)
+                    else:
+                        for y in x:
+                            visit(y, lhs, prod, field)
+        for r, (lhs, rhs, res) in sorted(self.results.items()):
+            for conds, v in res:
+                if self.feasible(rhs, conds):
+                    visit(v, lhs, '%s = %s' % (lhs, ', '.join(rhs)), None)
+        return viol, n
+
     # ---- M6 ----------------------------------------------------------------------------------------------------------------
     def constants(self):
         viol = {}
